@@ -36,6 +36,7 @@ import (
 type StyleD struct {
 	Fg, Bg, Ul uint32 `json:",omitempty"`
 	Us, At     uint8  `json:",omitempty"`
+	L, LP      string `json:",omitempty"` // hyperlink URI and its OSC 8 parameter string
 }
 
 type CellD struct {
@@ -55,7 +56,7 @@ type Scn struct {
 
 func (s StyleD) V() vaxis.Style {
 	return vaxis.Style{Foreground: vaxis.Color(s.Fg), Background: vaxis.Color(s.Bg), UnderlineColor: vaxis.Color(s.Ul),
-		UnderlineStyle: vaxis.UnderlineStyle(s.Us), Attribute: vaxis.AttributeMask(s.At)}
+		UnderlineStyle: vaxis.UnderlineStyle(s.Us), Attribute: vaxis.AttributeMask(s.At), Hyperlink: s.L, HyperlinkParams: s.LP}
 }
 
 const (
@@ -69,6 +70,7 @@ const (
 
 type Ctx struct {
 	G    *trace.Interner
+	L    *trace.Interner // hyperlinks ("params;uri"); id 0 is reserved (no link)
 	Dump func(format string, a ...any)
 
 	once sync.Once
@@ -102,7 +104,8 @@ func (c *Ctx) Close() { c.pool.Drop() }
 // DropSessions makes the next render scenarios start fresh sessions.
 func (c *Ctx) DropSessions() { c.pool.Drop() }
 
-// tuple is a cell in the oracle's vocabulary: g, fg, bg, ul, us, at.
+// tuple is a cell in the oracle's vocabulary: g, fg, bg, ul, us, at (a cell's
+// hyperlink is not part of what the property demands back).
 func (c *Ctx) tuple(g string, st vaxis.Style) []int {
 	return []int{c.G.ID(g), c01.ColInt(st.Foreground), c01.ColInt(st.Background), c01.ColInt(st.UnderlineColor),
 		int(st.UnderlineStyle), c01.AttrInt(st.Attribute)}
@@ -212,6 +215,16 @@ func (c *Ctx) lexOut(out []byte) (evs []trace.Ev, filtered string, other []strin
 				evs = append(evs, trace.Ev{"ev": "gs", "gs": ids})
 			}
 			b.WriteString(t.S)
+		case t.K == lexer.OSC && strings.HasPrefix(t.S, "8;") && strings.Count(t.S, ";") >= 2:
+			// hyperlink control string OSC 8 ; params ; URI ST: an empty URI closes the link
+			parts := strings.SplitN(t.S, ";", 3)
+			ln := 0
+			if parts[2] != "" {
+				ln = c.L.ID(parts[1] + ";" + parts[2])
+			}
+			evs = append(evs, trace.Ev{"ev": "osc8", "ln": ln})
+			b.WriteString("\x1b]" + t.S + "\x1b\\")
+			c.Cov.osc8(ln)
 		case t.K == lexer.C0 && t.B == 0:
 			// writer start-up padding
 		default:
@@ -262,9 +275,13 @@ func Run(ctx *Ctx, sc *Scn) (evs []trace.Ev, note string) {
 	}
 	ctx.dump("%s legacy=%v out=%q\n", sc.Prod, sc.Legacy, out)
 	tok, filtered, other := ctx.lexOut(out)
-	if sc.Prod != "render" && (len(other) > 0 || filtered != string(out)) {
-		// the codecs write nothing but SGR and graphemes for cells without hyperlinks
-		evs = append(evs, trace.Ev{"ev": "other", "what": asciiOnly(strings.Join(other, ","))})
+	if sc.Prod != "render" {
+		// the codecs write nothing but SGR, graphemes and hyperlink control strings (either string terminator)
+		if len(other) > 0 || filtered != strings.ReplaceAll(string(out), "\x07", "\x1b\\") {
+			evs = append(evs, trace.Ev{"ev": "other", "what": asciiOnly(strings.Join(other, ","))})
+		} else {
+			filtered = string(out) // the consumers are handed the very bytes
+		}
 	}
 	evs = append(evs, tok...)
 	dec := map[string][][]int{"parse": {}, "nss": {}, "emu": {}}
